@@ -1,5 +1,6 @@
 import CgreenModel.Lemmas.Xml
 import CgreenModel.Lemmas.Runner
+import CgreenModel.Model.XmlBuf
 /-!
 # C11 — XML reports are well-formed and complete for every run
 Three layers: (1) what goes between the quotes of an attribute (message, name, file text) is well formed
@@ -163,5 +164,64 @@ theorem C11_escape_fits (s : List Nat) (k m : Nat) (hk : 6 ≤ k) (hm : 1 ≤ m)
   omega
 
 example : (escape [34, 34, 34]).length + 1 = 6 * 3 + 1 := by decide      -- the bound is attained: three double quotes
+
+/-! ### How the plain XML reporter carries a test's elements to the suite's file (`Model/XmlBuf.lean`) -/
+namespace XmlBuf
+
+/-- Elements shown by one process while a test is open: the file receives exactly their texts, in order, nothing goes to the
+suite's file yet, and the process's `output` is its earlier contents followed by them. -/
+theorem showAll_file (p : Proc) (sh : Shared) (f : Text) (es : List Text) (hf : sh.file = some f) :
+    (showAll .length p sh es).2.file = some (f ++ es.flatten)
+    ∧ (showAll .length p sh es).2.suite = sh.suite
+    ∧ (showAll .length p sh es).1.output = (if es = [] then p.output else some (p.output.getD [] ++ es.flatten)) := by
+  induction es generalizing p sh f with
+  | nil => simp [showAll, hf]
+  | cons e es ih =>
+    simp only [showAll, showWith, hf]
+    have := ih { output := some (p.output.getD [] ++ e) } { sh with file := some (f ++ (p.output.getD [] ++ e).drop (p.output.getD []).length) } (f ++ e) (by simp)
+    simp at this ⊢
+    obtain ⟨h1, h2, h3⟩ := this
+    refine ⟨by simpa using h1, h2, ?_⟩
+    rw [h3]; split <;> simp_all
+
+end XmlBuf
+/-- **Each element once, in order, in every mode.** Whatever the test's process shows (any number of failure elements of any
+texts) and whatever the reporting process adds afterwards (its skip mark, its error element), whatever the two processes'
+`output` held before, finishing the test writes to the suite's file exactly those elements, each once, in that order - whether
+the test ran in a process of its own (two `output`s, one shared file) or in the reporting process (one `output`). -/
+theorem C11_buffer_each_once (forked : Bool) (p : XmlBuf.Proc) (sh : XmlBuf.Shared) (child parent : List XmlBuf.Text) :
+    (XmlBuf.runTest forked .length p sh child parent).2.2 = (child ++ parent).flatten
+    ∧ (XmlBuf.runTest forked .length p sh child parent).2.1 = { file := none, suite := sh.suite ++ (child ++ parent).flatten }
+    ∧ (XmlBuf.runTest forked .length p sh child parent).1 = { output := none } := by
+  have hc := XmlBuf.showAll_file { output := some [] } { sh with file := some [] } [] child rfl
+  obtain ⟨hc1, hc2, _⟩ := hc
+  simp only [XmlBuf.runTest, XmlBuf.startTest, XmlBuf.finishTest]
+  generalize (if forked = true then ({ output := some [] } : XmlBuf.Proc) else (XmlBuf.showAll .length { output := some [] } { sh with file := some [] } child).1) = q
+  have hp := XmlBuf.showAll_file q (XmlBuf.showAll .length { output := some [] } { sh with file := some [] } child).2 _ parent hc1
+  obtain ⟨hp1, hp2, _⟩ := hp
+  simp [hp1, hp2, hc2]
+
+/-- A check made outside any test (a suite's fixture run by the reporting process): its element goes to the suite's file at
+once, exactly once, and nothing is kept - whatever `output` held. -/
+theorem C11_buffer_outside_test (p : XmlBuf.Proc) (s e : XmlBuf.Text) :
+    XmlBuf.showElem p { file := none, suite := s } e = ({ output := none }, { file := none, suite := s ++ e }) := by
+  simp [XmlBuf.showElem, XmlBuf.showWith]
+
+/-- Witness for the seeded changes C13-B12 / C17-A7 / C11-A10 (the skip mark appended from offset 0): harmless when the test
+has a process of its own, a second copy of every failure element when it has not. -/
+theorem C11_buffer_offset_zero_witness :
+    (XmlBuf.runTest true .zero { output := none } { file := none, suite := [] } ["<f>".toList] ["<s>".toList]).2.2 = "<f><s>".toList
+    ∧ (XmlBuf.runTest false .zero { output := none } { file := none, suite := [] } ["<f>".toList] ["<s>".toList]).2.2 = "<f><f><s>".toList := by decide
+
+/-- Witness for the seeded change C11-B12 (print the reporting process's own `output` when there is any, read the file only
+otherwise): the failure elements of a forked test that is then skipped or killed are lost. -/
+theorem C11_buffer_prefer_output_witness :
+    let (p1, sh1) := XmlBuf.startTest { output := none } { file := none, suite := [] }
+    let (_, sh2) := XmlBuf.showAll .length p1 sh1 ["<f>".toList]
+    let (p2, sh3) := XmlBuf.showAll .length p1 sh2 ["<e>".toList]
+    (XmlBuf.finishTestPreferOutput p2 sh3).2.2 = "<e>".toList ∧ (XmlBuf.finishTest p2 sh3).2.2 = "<f><e>".toList := by decide
+
+example : (XmlBuf.runTest true .length { output := some "stale".toList } { file := none, suite := "<suite>".toList } ["<f1>".toList, "<f2>".toList] ["<error>".toList]).2.1.suite
+    = "<suite><f1><f2><error>".toList := by decide
 
 end Cgreen
